@@ -558,6 +558,11 @@ impl HistGen {
         self.emit("reset".into());
         let k = self.new_k();
         self.emit(format!("setup M0 K{k}"));
+        // sometimes start from a large identifier counter: rights then use multi-byte LEB128 encodings
+        if self.rng.chance(1, 10) {
+            let n = *self.rng.pick(&[127u64, 128, 200, 16383, 16384, 70000]);
+            self.emit(format!("bump_ids M0 {n}"));
+        }
         let nd = 1 + self.rng.below(self.p.max_dims);
         let save = self.p.malformed_pct;
         self.p.malformed_pct = 0;
